@@ -60,7 +60,8 @@ def main():
         rc, out = sh("cargo test --workspace --no-fail-fast --offline 2>&1 | grep -E '^test result|FAILED|failed|^error'", cwd=wt, env=env)
         # the demo itself is part of the workspace now: ignore its own failure
         demo_name = os.path.basename(demo_dst)[:-3]
-        fails = [l for l in out.split("\n") if ("FAILED" in l or "failed" in l or l.startswith("error")) and demo_name not in l]
+        import re as _re
+        fails = [l for l in out.split("\n") if ("FAILED" in l or _re.search(r"[1-9]\d* failed", l) or l.startswith("error")) and demo_name not in l]
         passed = sum(int(x) for x in re.findall(r"(\d+) passed", out))
         failed = sum(int(x) for x in re.findall(r"(\d+) failed", out))
         res["suite"] = {"passed": passed, "failed_incl_demo": failed, "other_failures": fails[:5]}
@@ -68,7 +69,9 @@ def main():
         res["demo_with_patch"] = "fail" if rc1 != 0 else "PASSES"
         # suite passes apart from the demo?
         demo_fail_count = len(re.findall(r"test \S+ \.\.\. FAILED", out1))
-        res["suite_passes_apart_from_demo"] = failed <= max(1, demo_fail_count) and not fails
+        # failures in the workspace run must all come from the demo target itself
+        res["suite_passes_apart_from_demo"] = (failed == demo_fail_count or failed <= demo_fail_count) and not [f for f in fails if "test result" not in f]
+        res["demo_failures"] = demo_fail_count
     finally:
         sh(["git", "-C", "/repo", "worktree", "remove", "--force", wt]); shutil.rmtree(wt, ignore_errors=True); shutil.rmtree(tgt, ignore_errors=True)
     # run the checks against /repo with the patch applied
